@@ -48,6 +48,28 @@ def ort_run(model: onnx.ModelProto, feeds: dict) -> list:
         ORT_FALLBACKS["aborted"] = _WORKER.crashes
 
 
+def _worker():
+    global _WORKER
+    from harness import lib_ortworker
+
+    if _WORKER is None:
+        _WORKER = lib_ortworker.OrtWorker()
+    return _WORKER
+
+
+def safe_full_check(model: onnx.ModelProto) -> None:
+    """onnx.checker.check_model(model, full_check=True), in the child process (raises what the checker raises,
+    `RuntimeAborted` when onnx's shape inference crashes natively)."""
+    _worker().full_check(model.SerializeToString())
+
+
+def safe_convert(model: onnx.ModelProto, target: int) -> onnx.ModelProto:
+    """onnx.version_converter.convert_version(model, target) ALONE (no spox), in the child process."""
+    out = onnx.ModelProto()
+    out.ParseFromString(_worker().convert(model.SerializeToString(), target))
+    return out
+
+
 def np_dtype(elem: int):
     return onnx.helper.tensor_dtype_to_np_dtype(elem)
 
@@ -355,11 +377,15 @@ def real_stages(m: onnx.ModelProto, call: dict, ctx: dict, lits: L.Lits) -> dict
                 rec["called"] = True
                 rec["version"] = version
                 try:
-                    rec["result"] = real_conv(model, version)
+                    res = real_conv(model, version)
+                    # adapt_inline edits the converter's result in place (_initializers_to_constants): the model is
+                    # given the RAW result and applies that step itself (`initsToConstants`)
+                    rec["result"] = onnx.ModelProto()
+                    rec["result"].CopyFrom(res)
                 except Exception as e:  # noqa: BLE001
                     rec["raised"] = type(e).__name__
                     raise
-                return rec["result"]
+                return res
 
             adapt_fn = A.adapt_inline
         except Exception as e:  # noqa: BLE001
@@ -535,7 +561,7 @@ def converter_blame(m: onnx.ModelProto, vals_list: list) -> Optional[str]:
         opset = next((o.version for o in m.opset_import if o.domain in ("", "ai.onnx")), 17)
         if opset >= 13 or not any(nd.op_type == "Hardmax" and nd.domain in ("", "ai.onnx") for nd in all_nodes(m.graph)):
             return None
-        conv = onnx.version_converter.convert_version(m, 13)
+        conv = safe_convert(m, 13)
         for vals in vals_list:
             a, b = ort_run(m, vals), ort_run(conv, vals)
             if any(not same(x, y) for x, y in zip(a, b)):
@@ -554,9 +580,9 @@ def converter_invalid(m: onnx.ModelProto) -> Optional[str]:
         for t in (14, 17, 18, 19, 20, 21):
             if t <= opset:
                 continue
-            conv = onnx.version_converter.convert_version(m, t)
+            conv = safe_convert(m, t)
             try:
-                onnx.checker.check_model(conv, full_check=True)
+                safe_full_check(conv)
             except Exception as e:  # noqa: BLE001
                 if "single static assignment" in str(e):
                     return "version-converter:invalid-model:duplicate-names"
@@ -575,9 +601,9 @@ def converter_asserts(m: onnx.ModelProto) -> Optional[str]:
             if t <= opset:
                 continue
             try:
-                onnx.version_converter.convert_version(m, t)
-            except RuntimeError as e:
-                if "owningGraph" in str(e):
+                safe_convert(m, t)
+            except Exception as e:  # noqa: BLE001
+                if type(e).__name__ == "RuntimeError" and "owningGraph" in str(e):
                     return "version-converter:RuntimeError:captured-result"
     except Exception:  # noqa: BLE001
         return None
@@ -726,7 +752,7 @@ def partner_model(v: int, rank: int = 1) -> onnx.ModelProto:
     nodes.append(H.make_node("Add", ["px", "pr"], ["py"]))
     vi = lambda n: H.make_tensor_value_info(n, TP.FLOAT, [None] * rank)  # noqa: E731
     pm = H.make_model(H.make_graph(nodes, "partner", [vi("px")], [vi("py")]), opset_imports=[H.make_operatorsetid("", v)], ir_version=7 if v < 15 else 8)
-    onnx.checker.check_model(pm, full_check=True)
+    safe_full_check(pm)
     return pm
 
 
@@ -835,7 +861,39 @@ def oracle_two_models(m: onnx.ModelProto, seed: int) -> list[tuple[str, str]]:
     return fails
 
 
-def oracle_compose(m: onnx.ModelProto, form: str, seed: int) -> list[tuple[str, str]]:
+AMBIENTS = ["vp:NONE", "vp:REFERENCE", "vp:ONNXRUNTIME", "tw:NONE", "tw:CRITICAL", "tw:INITIAL", "tw:OUTPUTS", "oo:plain", "oo:promo"]
+
+
+def ambient_ctx(name: Optional[str]):
+    """One documented ambient setting of spox (`spox._future`): value propagation backend, type warning level, operator
+    overloading. Nothing the property says depends on them: the same verdicts are demanded inside each."""
+    import contextlib
+
+    if name is None:
+        return contextlib.nullcontext()
+    from spox import _future as F
+
+    kind, val = name.split(":")
+    if kind == "vp":
+        return F.value_prop_backend(getattr(F.ValuePropBackend, val))
+    if kind == "tw":
+        return F.type_warning_level(getattr(F.TypeWarningLevel, val))
+    return F.operator_overloading(L.opset_module(17), type_promotion=(val == "promo"))
+
+
+def oracle_compose(m: onnx.ModelProto, form: str, seed: int, ambient: Optional[str] = None) -> list[tuple[str, str]]:
+    if ambient is None:
+        return _oracle_compose(m, form, seed)
+    try:
+        cm = ambient_ctx(ambient)
+    except Exception as e:  # noqa: BLE001 - the setting does not exist on this tree: not a verdict
+        return _oracle_compose(m, form, seed)
+    with cm:
+        fs = _oracle_compose(m, form, seed)
+    return [(k, f"[inside {ambient}] {w}") for k, w in fs]
+
+
+def _oracle_compose(m: onnx.ModelProto, form: str, seed: int) -> list[tuple[str, str]]:
     """Build an outer program around inline(m) and compare with m itself under onnxruntime.
     Returns a list of (key, description) failures of the property. Model-free."""
     from spox import Tensor, argument, build, inline
@@ -1222,8 +1280,15 @@ def oracle_hostile_names(m: onnx.ModelProto, seed: int, variants=None) -> list[t
     return fails
 
 
-def oracle_errors(m: onnx.ModelProto, seed: int) -> list[tuple[str, str]]:
+def oracle_errors(m: onnx.ModelProto, seed: int, ambient: Optional[str] = None) -> list[tuple[str, str]]:
     """Wrong calls must raise TypeError at the call; local functions => ValueError. Model-free."""
+    if ambient is not None:
+        try:
+            cm = ambient_ctx(ambient)
+        except Exception:  # noqa: BLE001
+            return oracle_errors(m, seed)
+        with cm:
+            return [(k, f"[inside {ambient}] {w}") for k, w in oracle_errors(m, seed)]
     from spox import argument, inline
 
     rng = random.Random(seed)
@@ -1301,7 +1366,7 @@ def oracle_errors(m: onnx.ModelProto, seed: int) -> list[tuple[str, str]]:
 
 def valid(m: onnx.ModelProto, runnable: bool, rng: random.Random) -> bool:
     try:
-        onnx.checker.check_model(m, full_check=True)
+        safe_full_check(m)
         if runnable:
             ort_run(m, input_values(rng, m))
         return True
@@ -1354,6 +1419,17 @@ def fixed_corner_models() -> list[tuple[onnx.ModelProto, dict]]:
     sp = H.make_sparse_tensor(NH.from_array(np.array([3.0], np.float32), "s"), NH.from_array(np.array([1], np.int64), ""), [2])
     out.append((mk([H.make_node("Add", ["x", "s"], ["y"])], [f2("x")], [f2("y")], opset=14, sparse_initializer=[sp]),
                 ["sparse-initializer", "opset-14"]))
+    # --- the converter turns a former attribute into a graph INITIALIZER (pads of Pad-10): adapt_inline makes it a Constant
+    p10 = mk([H.make_node("Pad", ["x"], ["p"], pads=[1, 0], mode="constant", value=0.5), H.make_node("Neg", ["p"], ["y"])],
+             [f2("x")], [f2("y", (3,))], opset=10)
+    p10.ir_version = 5
+    out.append((p10, ["opset-10", "converter-introduces-initializer", "no-chain"]))
+    p10b_t = H.make_graph([H.make_node("Pad", ["x"], ["t"], pads=[0, 1], mode="edge")], "then_g", [], [f2("t", (3,))])
+    p10b_e = H.make_graph([H.make_node("Pad", ["x"], ["t"], pads=[1, 0], mode="reflect")], "else_g", [], [f2("t", (3,))])
+    p10b = mk([H.make_node("Pad", ["x"], ["q"], pads=[0, 0]), H.make_node("If", ["c"], ["y"], then_branch=p10b_t, else_branch=p10b_e)],
+              [f2("x"), bvi("c", TP.BOOL, [])], [f2("y", (3,)), f2("q")], opset=10)
+    p10b.ir_version = 5
+    out.append((p10b, ["opset-10", "converter-introduces-initializer", "body-initializer", "no-chain"]))
     # --- literal 0 dimensions, dim_param "", dimensions without fields in the declared types
     z = H.make_model(H.make_graph([H.make_node("Add", ["x", "y"], ["s"]), H.make_node("Abs", ["s"], ["o"])], "g",
                                   [f2("x", (0, 3)), f2("y", ("", 3))], [f2("o", (0, 3)), f2("s", (None, 3))], doc_string="runtime-shape:[0, 3]"),
@@ -1577,8 +1653,10 @@ def run(ck: core.Check):
         changed = [f"baseline unreadable: {type(e).__name__}"]
     ck.cov["covered_sources_changed"] = changed
     global ESCALATE
-    ESCALATE = bool(changed)
-    if changed:
+    import os as _os
+
+    ESCALATE = bool(changed) and not _os.environ.get("C08_NO_ESCALATE")  # (the mutation table is run without the escalation)
+    if ESCALATE:
         ck.notes.append(f"covered source changed since the baseline ({', '.join(changed)}): version-family counts escalated")
         n_vbody *= 3
     n_types = ck.pick(30, 300)
@@ -1637,6 +1715,7 @@ def run(ck: core.Check):
     unobs: dict[str, int] = {}
     adapt_hist: dict[str, int] = {}
     pf_hist: dict[str, int] = {}
+    contract_hist: dict[str, int] = {}
     for (mi, call, ctx), real, ans in zip(descr, reals, answers):
         if "unobservable" in real:
             facet = real["unobservable"].split(":")[0]
@@ -1654,6 +1733,16 @@ def run(ck: core.Check):
         if "adapt" in real:
             ak = "converter-raised" if real.get("adapt_conv_raised") else ("converted" if real.get("adapt_called") else "kept")
             adapt_hist[ak] = adapt_hist.get(ak, 0) + 1
+        am = ans.get("adapt") if isinstance(ans, dict) else None
+        if isinstance(am, dict) and am.get("converts") and real.get("adapt_called") and not real.get("adapt_conv_raised"):
+            contract_hist["checked"] = contract_hist.get("checked", 0) + 1
+            if am.get("convInits"):
+                contract_hist["converter-introduced-initializers"] = contract_hist.get("converter-introduced-initializers", 0) + 1
+            if am.get("contract") is False:
+                contract_hist["violated"] = contract_hist.get("violated", 0) + 1
+                if contract_hist["violated"] <= 2:
+                    ck.broken("correspondence", "C08 the converter's actual result violates the syntactic part of ConverterContract",
+                              f"model#{mi} {json.dumps(L.summary(models[mi][0]))[:400]}")
         if isinstance(ans, dict) and ans.get("prefixFree") and real.get("emit") == "ScopeError":
             d_pf = "prefix-free scope but the real to_onnx raised ScopeError"
             ck.broken("correspondence", "C08 rename_total", d_pf)
@@ -1692,6 +1781,7 @@ def run(ck: core.Check):
     ck.cov["correspondence_unobservable"] = unobs
     ck.cov["adapt_correspondence"] = adapt_hist
     ck.cov["scope_prefix_free"] = pf_hist
+    ck.cov["converter_contract_syntactic"] = contract_hist
 
     # ---- evaluator correspondence: Inline.evalModel (integer interpreter) vs onnxruntime
     ev_reqs, ev_expect = [], []
@@ -1702,7 +1792,7 @@ def run(ck: core.Check):
         m, meta = L.HandGen(rng, scalar_int=True).model()
         vals = input_values(rng, m)
         try:
-            onnx.checker.check_model(m, full_check=True)
+            safe_full_check(m)
             exp = ort_run(m, vals)
         except Exception:  # noqa: BLE001
             continue
@@ -1758,10 +1848,11 @@ def run(ck: core.Check):
     except Exception as e:  # noqa: BLE001
         scope_obs["unobservable"] = f"{type(e).__name__}: {e}"
     try:
-        _oracle_phase(ck, models, snaps, rng, scope_obs)
+        _oracle_phase(ck, models, snaps, rng, scope_obs, name_cases)
     finally:
         if restore_hook:
             restore_hook()
+    del name_cases[name_cap:]
     ck.log(f"oracle phase done: {ck.cov.get('oracle_compositions')} compositions")
     if scope_obs.get("to_onnx_calls") and scope_obs["prefix_free"] != scope_obs["to_onnx_calls"]:
         ck.notes.append(f"{scope_obs['to_onnx_calls'] - scope_obs['prefix_free']} build scopes were not free of the node's prefix family (rename_total does not apply to them)")
@@ -1789,60 +1880,240 @@ def run(ck: core.Check):
     _finish_evidence(ck)
 
 
-def _oracle_phase(ck, models, snaps, rng, scope_obs):
-    form_hist: dict[str, int] = {}
-    n_oracle = 0
-    for mi, (m, meta) in enumerate(models):
-        for key, what in purity(fresh(snaps[mi])):
-            ck.failure(key, what, {"kind": "purity", "model": L.to_b64(fresh(snaps[mi])), "summary": L.summary(m)})
-        if m.SerializeToString(deterministic=True) != snaps[mi]:
-            raise core_infra("a model of the case list changed although only copies are handed out")
-        seed0 = rng.randrange(1 << 30)
-        for key, what in oracle_errors(fresh(snaps[mi]), seed0):
-            ck.failure(key, what, {"kind": "errors", "model": L.to_b64(m), "seed": seed0, "summary": L.summary(m)})
-        if not meta["runnable"]:
-            seed1 = rng.randrange(1 << 30)
-            for key, what in oracle_build_only(fresh(snaps[mi]), seed1):
-                ck.failure(key, what, {"kind": "build-only", "model": L.to_b64(fresh(snaps[mi])), "seed": seed1,
-                                       "summary": L.summary(m), "features": meta["features"]})
-            ck.count(("build-only", mi))
-            continue
-        if "oracle-only" not in meta["features"]:
-            seed2 = rng.randrange(1 << 30)
-            hv = ["arg-clash", "res-clash", "arg-family", "res-generated", "both"] if meta["kind"] == "corner" else None
-            for key, what in oracle_hostile_names(fresh(snaps[mi]), seed2, hv):
-                ck.failure(key, what, {"kind": "hostile-names", "model": L.to_b64(fresh(snaps[mi])), "seed": seed2,
-                                       "variants": hv, "summary": L.summary(m), "features": meta["features"]})
-        family = meta["kind"] == "vbody" or "version-family" in meta["features"]
-        if family:
-            # the version family: always next to operators of a later opset, in several compositions and histories
-            forms = (list(FORMS) + list(MIXED_FORMS)) if (ck.thorough or ESCALATE) else (
-                ["once", "mixed+once", "history", "name-history"] + rng.sample(MIXED_FORMS[1:], 3) + rng.sample(FORMS[1:8], 2)) if meta["kind"] == "corner" else (
-                ["once", "mixed+once"] + rng.sample(MIXED_FORMS[1:], 2) + rng.sample(["mixed-opset", "history", "name-history", "loop-body", "if-body"], 1))
-        elif "declared-types" in meta["features"]:
-            forms = ["once", "twice", "if-body", "chained", "mixed-opset"] if ck.thorough else ["once", rng.choice(["twice", "if-body", "chained", "mixed-opset"])]
+class _Rec:
+    """What a worker of the oracle phase reports for one model (replayed on the Check by the parent, in model order)."""
+
+    def __init__(self):
+        self.failures: list = []
+        self.counts: list = []
+        self.samples: list = []
+        self.forms: list = []
+        self.ambients: list = []
+
+    def failure(self, key, what, case):
+        self.failures.append((key, what, case))
+
+    def count(self, key):
+        self.counts.append(key)
+
+    def sample(self, x, n):
+        self.samples.append((x, n))
+
+
+def _oracle_one(rec: _Rec, thorough: bool, mi: int, m, meta, snap: bytes, rng: random.Random):
+    """Every model-free check of ONE model; rng is the model's own generator (seed, model index)."""
+    ck = rec
+    for key, what in purity(fresh(snap)):
+        ck.failure(key, what, {"kind": "purity", "model": L.to_b64(fresh(snap)), "summary": L.summary(m)})
+    if m.SerializeToString(deterministic=True) != snap:
+        raise core_infra("a model of the case list changed although only copies are handed out")
+    seed0 = rng.randrange(1 << 30)
+    amb0 = rng.choice(AMBIENTS) if rng.random() < 0.3 else None
+    for key, what in oracle_errors(fresh(snap), seed0, amb0):
+        ck.failure(key, what, {"kind": "errors", "model": L.to_b64(m), "seed": seed0, "ambient": amb0, "summary": L.summary(m)})
+    if not meta["runnable"]:
+        seed1 = rng.randrange(1 << 30)
+        for key, what in oracle_build_only(fresh(snap), seed1):
+            ck.failure(key, what, {"kind": "build-only", "model": L.to_b64(fresh(snap)), "seed": seed1,
+                                   "summary": L.summary(m), "features": meta["features"]})
+        ck.count(("build-only", mi))
+        return
+    if "oracle-only" not in meta["features"]:
+        seed2 = rng.randrange(1 << 30)
+        hv = ["arg-clash", "res-clash", "arg-family", "res-generated", "both"] if meta["kind"] == "corner" else None
+        for key, what in oracle_hostile_names(fresh(snap), seed2, hv):
+            ck.failure(key, what, {"kind": "hostile-names", "model": L.to_b64(fresh(snap)), "seed": seed2,
+                                   "variants": hv, "summary": L.summary(m), "features": meta["features"]})
+    family = meta["kind"] == "vbody" or "version-family" in meta["features"]
+    if family:
+        # the version family: always next to operators of a later opset, in several compositions and histories
+        forms = (list(FORMS) + list(MIXED_FORMS)) if (thorough or ESCALATE) else (
+            ["once", "mixed+once", "history", "name-history"] + rng.sample(MIXED_FORMS[1:], 3) + rng.sample(FORMS[1:8], 2)) if meta["kind"] == "corner" else (
+            ["once", "mixed+once"] + rng.sample(MIXED_FORMS[1:], 2) + rng.sample(["mixed-opset", "history", "name-history", "loop-body", "if-body"], 1))
+    elif "declared-types" in meta["features"]:
+        forms = ["once", "twice", "if-body", "chained", "mixed-opset"] if thorough else ["once", rng.choice(["twice", "if-body", "chained", "mixed-opset"])]
+    else:
+        if thorough or meta["kind"] == "corner":
+            forms = list(FORMS)
         else:
-            if ck.thorough or meta["kind"] == "corner":
-                forms = list(FORMS)
-            else:
-                # the two history forms cost 5-6 builds each: one of them for a quarter of the models
-                forms = ["once"] + rng.sample(FORMS[1:8], 3) + ([rng.choice(FORMS[8:])] if rng.random() < 0.25 else [])
-        forms = list(forms) + ["two-models"] * (3 if ck.thorough else (2 if family else 1))
-        for form in forms:
-            if form == "chained" and "no-chain" in meta["features"]:
-                continue
-            seed1 = rng.randrange(1 << 30)
-            fs = oracle_compose(fresh(snaps[mi]), form, seed1)
-            form_hist[form] = form_hist.get(form, 0) + 1
+            # the two history forms cost 5-6 builds each: one of them for a quarter of the models
+            forms = ["once"] + rng.sample(FORMS[1:8], 3) + ([rng.choice(FORMS[8:])] if rng.random() < 0.25 else [])
+    forms = list(forms) + ["two-models"] * (3 if thorough else (2 if family else 1))
+    for form in forms:
+        if form == "chained" and "no-chain" in meta["features"]:
+            continue
+        seed1 = rng.randrange(1 << 30)
+        amb = rng.choice(AMBIENTS) if rng.random() < (0.5 if thorough else 0.3) else None
+        fs = oracle_compose(fresh(snap), form, seed1, amb)
+        rec.forms.append(form)
+        if amb:
+            rec.ambients.append(amb)
+        ck.count(("compose", mi, form) if len(m.graph.node) >= 1 else None)
+        for key, what in fs:
+            ck.failure(key, what, {"kind": "compose", "form": form, "model": L.to_b64(m), "seed": seed1, "ambient": amb,
+                                   "summary": L.summary(m), "features": meta["features"]})
+    ck.sample({"model": L.summary(m), "features": meta["features"]}, 4)
+
+
+N_WORKERS = 8
+
+
+def _oracle_phase(ck, models, snaps, rng, scope_obs, name_cases=None):
+    """The oracle over all models, in N_WORKERS forked children (the parent holds no threads: onnxruntime and the
+    Lean driver are subprocesses). Every model has its own generator (base seed, index), so the verdicts do not depend
+    on the partition. A child appends one frame per finished model to its file: a child that DIES (native crash inside
+    spox.build's onnx calls on a mutated tree) loses only the model it was working on - that is registered and the rest
+    of its share is handed to a new child. The parent replays all records on the Check in model order."""
+    import os
+    import pickle
+    import traceback
+
+    global _WORKER
+    base = rng.randrange(1 << 30)
+    name_cases = name_cases if name_cases is not None else []
+    work = core.WORK
+    work.mkdir(exist_ok=True)
+    if _WORKER is not None:
+        _WORKER.close()  # children start their own onnxruntime process
+        _WORKER = None
+    idx = list(range(len(models)))
+    shares = [idx[k::N_WORKERS] for k in range(N_WORKERS)]
+    done: dict[int, dict] = {}
+    crashed: list[int] = []
+    infra: list[str] = []
+
+    def child(k: int, todo: list, path):
+        # in the child: fresh observation state, results appended per model
+        scope_obs.update({"to_onnx_calls": 0, "prefix_free": 0})
+        del name_cases[:]
+        HOSTILE_HIST.clear()
+        with open(path, "ab") as fh:
+            for mi in todo:
+                m, meta = models[mi]
+                rec = _Rec()
+                n0 = len(name_cases)
+                before = dict(scope_obs)
+                try:
+                    _oracle_one(rec, ck.thorough, mi, m, meta, snaps[mi], random.Random(base * 100003 + mi))
+                    frame = {"mi": mi, "rec": rec.__dict__}
+                except BaseException:  # noqa: BLE001 - reported to the parent (exit 2 there, as before)
+                    frame = {"mi": mi, "infra": traceback.format_exc()}
+                frame["name_cases"] = name_cases[n0:]
+                frame["scope"] = {q: scope_obs.get(q, 0) - before.get(q, 0) for q in ("to_onnx_calls", "prefix_free")}
+                if "unobservable" in scope_obs:
+                    frame["scope_unobservable"] = scope_obs["unobservable"]
+                frame["hostile"] = dict(HOSTILE_HIST)
+                frame["ort"] = dict(ORT_FALLBACKS)
+                pickle.dump(frame, fh)
+                fh.flush()
+            pickle.dump({"done": True}, fh)
+
+    def launch(k: int, todo: list):
+        path = work / f"c08_oracle_{os.getpid()}_{k}_{len(todo)}.pkl"
+        if path.exists():
+            path.unlink()
+        pid = os.fork()
+        if pid == 0:
+            code = 0
+            try:
+                child(k, todo, path)
+            except BaseException:  # noqa: BLE001
+                code = 3
+            finally:
+                try:
+                    if _WORKER is not None:
+                        _WORKER.close()
+                finally:
+                    os._exit(code)
+        return pid, path
+
+    def collect(path):
+        frames = []
+        try:
+            with open(path, "rb") as fh:
+                while True:
+                    try:
+                        frames.append(pickle.load(fh))
+                    except EOFError:
+                        break
+                    except Exception:  # noqa: BLE001 - a torn last frame
+                        break
+        except FileNotFoundError:
+            pass
+        try:
+            path.unlink()
+        except OSError:
+            pass
+        return frames
+
+    pending = [(k, sh) + launch(k, sh) for k, sh in enumerate(shares) if sh]
+    while pending:
+        nxt = []
+        for k, todo, pid, path in pending:
+            os.waitpid(pid, 0)
+            frames = collect(path)
+            finished = bool(frames) and frames[-1].get("done")
+            for fr in frames:
+                if "mi" in fr:
+                    done[fr["mi"]] = fr
+            if not finished:
+                got = [fr["mi"] for fr in frames if "mi" in fr]
+                rest = [mi for mi in todo if mi not in got]
+                if rest:
+                    crashed.append(rest[0])
+                    if rest[1:]:
+                        nxt.append((k, rest[1:]) + launch(k, rest[1:]))
+        pending = nxt
+
+    form_hist: dict[str, int] = {}
+    amb_hist: dict[str, int] = {}
+    n_oracle = 0
+    last_ort: dict = {}
+    hostile: dict[str, int] = {}
+    for mi in idx:
+        fr = done.get(mi)
+        if fr is None:
+            continue
+        if "infra" in fr:
+            infra.append(fr["infra"])
+            continue
+        r = fr["rec"]
+        for key, what, case in r["failures"]:
+            ck.failure(key, what, case)
+        for key in r["counts"]:
+            ck.count(key)
+        for x, n in r["samples"]:
+            ck.sample(x, n)
+        for f in r["forms"]:
+            form_hist[f] = form_hist.get(f, 0) + 1
             n_oracle += 1
-            ck.count(("compose", mi, form) if len(m.graph.node) >= 1 else None)
-            for key, what in fs:
-                ck.failure(key, what, {"kind": "compose", "form": form, "model": L.to_b64(m), "seed": seed1,
-                                       "summary": L.summary(m), "features": meta["features"]})
-        ck.sample({"model": L.summary(m), "features": meta["features"]}, 4)
-    ck.cov.update({"oracle_compositions": n_oracle, "oracle_forms": form_hist, "hostile_outer_names": dict(sorted(HOSTILE_HIST.items())),
-                   "onnxruntime_retries_without_optimiser": ORT_FALLBACKS["unoptimised"],
-                   "onnxruntime_process_aborts": ORT_FALLBACKS.get("aborted", 0)})
+        for a_ in r.get("ambients", []):
+            amb_hist[a_] = amb_hist.get(a_, 0) + 1
+    # per-child cumulative tallies: the last frame of each child carries its totals
+    by_child: dict[int, dict] = {}
+    for mi in idx:
+        fr = done.get(mi)
+        if fr is not None:
+            by_child[mi % N_WORKERS] = fr
+            for q in ("to_onnx_calls", "prefix_free"):
+                scope_obs[q] = scope_obs.get(q, 0) + fr["scope"][q]
+            if "scope_unobservable" in fr:
+                scope_obs["unobservable"] = fr["scope_unobservable"]
+            name_cases.extend(fr["name_cases"])
+    for fr in by_child.values():
+        for q, v in fr["hostile"].items():
+            hostile[q] = hostile.get(q, 0) + v
+        for q, v in fr["ort"].items():
+            last_ort[q] = last_ort.get(q, 0) + v
+    for mi in crashed:
+        ck.broken("oracle", "C08 the process died inside the model-free checks of a model (native crash under spox.build)",
+                  f"model#{mi} {json.dumps(L.summary(models[mi][0]))[:400]} features={models[mi][1]['features']}")
+    if infra:
+        raise core_infra("oracle worker: " + infra[0][-1500:])
+    ck.cov.update({"oracle_compositions": n_oracle, "oracle_forms": form_hist, "hostile_outer_names": dict(sorted(hostile.items())),
+                   "onnxruntime_retries_without_optimiser": last_ort.get("unoptimised", 0),
+                   "onnxruntime_process_aborts": last_ort.get("aborted", 0), "oracle_workers": N_WORKERS, "compositions_inside_ambient_settings": dict(sorted(amb_hist.items())),
+                   "oracle_worker_crashes": len(crashed)})
 
 
 def _finish_evidence(ck):
@@ -1888,9 +2159,9 @@ def replay(ck: core.Check, doc) -> bool:
         elif case["kind"] == "build-only":
             fs = oracle_build_only(m, case["seed"])
         elif case["kind"] == "errors":
-            fs = oracle_errors(m, case["seed"])
+            fs = oracle_errors(m, case["seed"], case.get("ambient"))
         else:
-            fs = oracle_compose(m, case["form"], case["seed"])
+            fs = oracle_compose(m, case["form"], case["seed"], case.get("ambient"))
     for key, what in fs:
         print(f"{key}: {what}")
     known = {f["key"] for f in ck._findings if f["property"] == "C08" and f.get("status") == "known"}
